@@ -72,3 +72,54 @@ func TestDebugEnumConvoy(t *testing.T) {
 	})
 	fmt.Println("episodes enumerated:", tried)
 }
+
+// TestDebugE04 drives the hand-written "release queued behind rebind" history over a grid of convoy schedules (development aid).
+func TestDebugE04(t *testing.T) {
+	if os.Getenv("VERIF_DEBUG_E04") == "" {
+		t.Skip()
+	}
+	topo := Topo{Pools: []PoolT{{NodeSubnets: []string{"10.49.27.0/24"}, Subnet: "10.0.70.0/24", Gateway: "10.0.70.1",
+		Ranges: [][2]uint32{{0x0a004602, 0x0a004604}}}}, Nodes: []NodeT{{Name: "n0", IP: "10.49.27.3"}, {Name: "n1", IP: "10.49.27.4"}}}
+	found := 0
+	for ka := 1; ka <= 8; ka++ {
+		for kb := 1; kb <= 8; kb++ {
+			for m := 1; m <= 6; m++ {
+				var sched []int
+				for i := 0; i < ka; i++ {
+					sched = append(sched, 0)
+				}
+				for i := 0; i < kb; i++ {
+					sched = append(sched, 1)
+				}
+				for i := 0; i < m; i++ {
+					sched = append(sched, 2)
+				}
+				for i := 0; i < 40; i++ {
+					sched = append(sched, 1)
+				}
+				c := Case{Topo: topo, WLs: []WL{{Kind: "sts", Name: "s0", Policy: "immutable", Replicas: 3}}, Lag: true, Cloud: true,
+					Ops: []Op{{K: "create"}, {K: "synclister", A: 2}, {K: "sched", B: 63}, {K: "synclister", A: 2}, {K: "phase"}, {K: "synclister", A: 2},
+						{K: "deliver"}, {K: "deliver"}, {K: "deliver"},
+						{K: "recreate"}, {K: "deliver"}, {K: "filter", B: 63},
+						{K: "episode", Sub: []Op{{K: "unbind"}, {K: "apirelease"}, {K: "synclister", A: 0}, {K: "bind"}}, Sched: sched}}}
+				r := &vcore.Rec{}
+				_, f := runHistory(c, r, &ObsC04{})
+				if f != nil {
+					if f != nil {
+						found++
+					}
+					fmt.Printf("==== ka=%d kb=%d m=%d f=%v\n", ka, kb, m, f)
+					if found <= 1 || f == nil {
+						for _, l := range r.Trace() {
+							if len(l) > 900 {
+								l = l[:900]
+							}
+							fmt.Println(l)
+						}
+					}
+				}
+			}
+		}
+	}
+	fmt.Println("violating schedules:", found)
+}
